@@ -1,10 +1,12 @@
 //! Verification harness for al8n/caches-rs: property-based testing and fuzzing engines.
 pub mod alloc;
 pub mod checks;
+pub mod e7;
 pub mod gen;
 pub mod inst;
 pub mod interp;
 pub mod model;
+pub mod multi;
 pub mod ops;
 pub mod registry;
 pub mod runner;
